@@ -212,7 +212,7 @@ fn main() {
                 // the same program through one of the other entry forms
                 let kind = WRAP_KINDS[i % WRAP_KINDS.len()];
                 let tail = gen_tail(&mut rng, kind, &winfo, &ctx);
-                let p: &[S] = if kind == "expr" { &[] } else { &prog };
+                let p: &[S] = if kind == "expr" { &[] } else { &winfo.wprog };
                 writeln!(out, "{}", run_wrap_case(&format!("g{}w", i), &ctx, kind, p, &tail, &format!("kinds=wrap-{}", kind))).unwrap();
             }
         }
